@@ -83,13 +83,14 @@ CLAIMED["C18"]["engine"] = "server-life+listener"
 CLAIMED["C18"]["tech"] += "; plus TLA+ model Listener.tla (listen / dial / accept / close on one listener of each kind, every sequence inside the bound) executed on real listeners, TLC monitor LisObs (C18_ListenerStops: a closed listener takes no dial and hands out no connection; C18_ListenerReleases: a connection that had not finished its websocket upgrade is closed with the listener), plus a Server over two listeners whose first one fails to close / whose second one cannot bind"
 CLAIMED["C08"]["engine"] = "hs-client+client-life"
 CLAIMED["C08"]["tech"] += "; at the level of the Client facade: Client.Establish against a scripted server whose first connection is answered with another state, TLC monitor CliObs (C08_ClientTruthful)"
-CLAIMED["C09"]["tech"] += "; websocket dial attributes (ws / wss, with and without a TLS configuration): both ends must report the encryption of the URL scheme, TLC monitor TransObs (C09_TransportEncryption)"
+CLAIMED["C09"]["tech"] += "; websocket dial attributes (ws / wss, with and without a TLS configuration): both ends must report the encryption of the URL scheme, TLC monitor TransObs (C09_TransportEncryption); each end of those connections asked to apply each encryption: success only with the encryption in force afterwards, refusal otherwise (C09_TransportSetEncApplied)"
 CLAIMED["C13"]["engine"] = "channel+transport+client-life"
 CLAIMED["C13"]["tech"] += "; at the Client facade every connection the client ever made must be seen released by the scripted server (garbage collector off), TLC monitor CliObs (C13_ClientReleases)"
 CLAIMED["C14"]["tech"] += "; variants of refused handshakes in which the client resets the connection after its last symbol (server side observed through a hook); the callbacks half of the property also on ServerLife.tla schedules forced on a real Server (outcomes failed / gone / err / stall), TLC monitor SrvObs (C18_CallbacksExact)"
 CLAIMED["C06"]["engine"] = "hs-server+hs-client+channel"
 CLAIMED["C06"]["note"] = HS_NOTE + " Both roles: server role on HsServer behaviours, client role on HsClient behaviours. Established phase: free runs of real sessions (channel engine), sampled schedules."
 CLAIMED["C06"]["tech"] += " and HsClient.tla + C06_ClientSendGuard for the client role; for the end of the established phase Channel.tla (invariant NoDataAfterFinished) checked by TLC and real sessions ended idle / during traffic over five transports with a wire tap on the terminating server and send attempts by both sides afterwards, TLC monitor ChanObs (C06_QuietAfterEnd, C06_NoSendAfterEnd)"
+CLAIMED["C03"]["tech"] += "; a second, wide-open ServerBuilder server is built in the same process after the server under test, so configuration shared between builders shows as an establishment under a scheme that was not configured"
 CLAIMED["C09"]["engine"] = "hs-server+hs-client"
 CLAIMED["C09"]["note"] = HS_NOTE + " Library server against scripted client and library client against scripted server."
 CLAIMED["C09"]["tech"] += " and HsClient.tla + C09_ClientUpgrade for the client role"
